@@ -133,9 +133,13 @@ def run(ctx: Ctx) -> None:
                     n += 1
                     try:
                         out = ev.run(f.node.body, {ps[0]: self_tok, ps[1]: var, vkind: mk})
-                    except (Unsupported, Raised) as e:
+                    except Unsupported as e:
                         und = str(e)
                         break
+                    except Raised as e:
+                        # the instantiator itself fails on a well-formed (index, instantiation) pair
+                        bad.append({"idx": i, "instantiated": ninst, "got": f"raises {e}", "want": "an argument or a lowered variable"})
+                        continue
                     if partial and i < ninst:
                         # partial instantiation: a position without an argument must be left to the recursive descent
                         # (`None` = "not handled, keep transforming the parts", e.g. the type of a const variable)
